@@ -3,6 +3,12 @@
 //   cvcvals   print, for every variable, every component: index, active flag, current value (hex)
 //             (a component that was not evaluated at this step keeps the value of its last evaluation)
 //   errbits c0 c1 ..   one std::thread per code calls cvm::set_error_bits(code) repeatedly; prints the resulting error word
+//   footprints   derive, without instrumentation, the footprint of every work item of the two parallel loops and of the
+//             collection phase from the live objects: an item is run alone from a restored snapshot of all model locations
+//             (writes = locations whose content changed), and re-run after perturbing one location at a time
+//             (reads = locations whose perturbation changes what the item writes).  Uses the positions set by the
+//             preceding `pos` commands (they must differ from those of the last step).  Last command of a case.
+//   setupoutput   colvarmodule::setup_output() (as an engine calls it after the configuration)
 //   endcase   print ENDCASE, destroy the module and the proxy (several scenarios in one process)
 // Reads scenarios from stdin or argv[1].
 #include <cstdio>
@@ -29,8 +35,140 @@
 #include "vsim.h"
 #include "colvarcomp.h"
 
+struct c12_loc {
+  std::string name;
+  std::function<std::vector<double>()> get;
+  std::function<void(std::vector<double> const &)> set;
+};
+
 struct c12_session : public vsim_session {
   c12_session(std::ostream *o) : vsim_session(o) {}
+
+  std::vector<c12_loc> locations()
+  {
+    std::vector<c12_loc> L;
+    colvarmodule *cv = proxy->colvars;
+    vsim_proxy *px = proxy;
+    std::vector<colvar *> &vars = *(cv->variables());
+    for (size_t v = 0; v < vars.size(); v++) {
+      colvar *c = vars[v];
+      for (size_t k = 0; k < c->cvcs.size(); k++) {
+        colvar::cvc *q = c->cvcs[k].get();
+        std::string id = std::to_string(v) + ":" + std::to_string(k);
+        L.push_back({"LIn:" + id,
+          [q, px]() { std::vector<double> r;
+            for (cvm::atom_group *g : q->atom_groups) for (size_t a = 0; a < g->atoms.size(); a++) {
+              cvm::rvector const &p = px->atoms_positions[g->atoms[a].index]; r.push_back(p.x); r.push_back(p.y); r.push_back(p.z);
+              cvm::rvector const &f = px->atoms_total_forces[g->atoms[a].index]; r.push_back(f.x); r.push_back(f.y); r.push_back(f.z); }
+            return r; },
+          [q, px](std::vector<double> const &r) { size_t n = 0;
+            for (cvm::atom_group *g : q->atom_groups) for (size_t a = 0; a < g->atoms.size(); a++) {
+              px->atoms_positions[g->atoms[a].index] = cvm::rvector(r[n], r[n + 1], r[n + 2]);
+              px->atoms_total_forces[g->atoms[a].index] = cvm::rvector(r[n + 3], r[n + 4], r[n + 5]); n += 6; } }});
+        L.push_back({"LCvc:" + id,
+          [q]() { std::vector<double> r; r.push_back(q->x.real_value); r.push_back(q->ft.real_value); r.push_back(q->jd.real_value);
+            for (cvm::atom_group *g : q->atom_groups) for (size_t a = 0; a < g->atoms.size(); a++) {
+              cvm::atom &t = g->atoms[a]; r.push_back(t.pos.x); r.push_back(t.pos.y); r.push_back(t.pos.z);
+              r.push_back(t.grad.x); r.push_back(t.grad.y); r.push_back(t.grad.z); }
+            return r; },
+          [q](std::vector<double> const &r) { size_t n = 0; q->x.real_value = r[n++]; q->ft.real_value = r[n++]; q->jd.real_value = r[n++];
+            for (cvm::atom_group *g : q->atom_groups) for (size_t a = 0; a < g->atoms.size(); a++) {
+              cvm::atom &t = g->atoms[a]; t.pos = cvm::rvector(r[n], r[n + 1], r[n + 2]); t.grad = cvm::rvector(r[n + 3], r[n + 4], r[n + 5]); n += 6; } }});
+      }
+      std::string id = std::to_string(v);
+      L.push_back({"LX:" + id,
+        [c]() { return std::vector<double>{c->x.real_value, c->ft.real_value, c->fj.real_value, c->x_reported.real_value}; },
+        [c](std::vector<double> const &r) { c->x.real_value = r[0]; c->ft.real_value = r[1]; c->fj.real_value = r[2]; c->x_reported.real_value = r[3]; }});
+      L.push_back({"LFb:" + id, [c]() { return std::vector<double>{c->fb.real_value}; }, [c](std::vector<double> const &r) { c->fb.real_value = r[0]; }});
+      L.push_back({"LF:" + id, [c]() { return std::vector<double>{c->f.real_value}; }, [c](std::vector<double> const &r) { c->f.real_value = r[0]; }});
+    }
+    for (size_t b = 0; b < cv->biases.size(); b++) {
+      colvarbias *q = cv->biases[b];
+      std::string id = std::to_string(b);
+      L.push_back({"LBiasE:" + id, [q]() { return std::vector<double>{q->bias_energy}; }, [q](std::vector<double> const &r) { q->bias_energy = r[0]; }});
+      for (size_t i = 0; i < q->colvar_forces.size(); i++) {
+        L.push_back({"LBiasF:" + id + ":" + std::to_string(i),
+          [q, i]() { return std::vector<double>{q->colvar_forces[i].real_value}; },
+          [q, i](std::vector<double> const &r) { q->colvar_forces[i].real_value = r[0]; }});
+      }
+    }
+    L.push_back({"LEnergy", [cv]() { return std::vector<double>{cv->total_bias_energy}; }, [cv](std::vector<double> const &r) { cv->total_bias_energy = r[0]; }});
+    return L;
+  }
+
+  typedef std::vector<std::vector<double> > snap_t;
+  static snap_t getall(std::vector<c12_loc> &L) { snap_t s; for (auto &l : L) s.push_back(l.get()); return s; }
+  static void setall(std::vector<c12_loc> &L, snap_t const &s) { for (size_t i = 0; i < L.size(); i++) L[i].set(s[i]); }
+
+  void probe(std::string const &label, std::vector<c12_loc> &L, snap_t const &S0, std::function<void()> const &run_item)
+  {
+    std::ostream &o = *out;
+    setall(L, S0);
+    run_item();
+    snap_t S1 = getall(L);
+    std::vector<size_t> W;
+    for (size_t i = 0; i < L.size(); i++) if (S1[i] != S0[i]) W.push_back(i);
+    // control: an item with private state outside the locations (hills, samples, moving centres, extended coordinates)
+    // does not repeat itself; its read set cannot be derived by perturbation
+    setall(L, S0);
+    run_item();
+    bool const repeatable = (getall(L) == S1);
+    std::vector<size_t> R;
+    for (size_t j = 0; repeatable && j < L.size(); j++) {
+      if (S0[j].empty()) continue;
+      setall(L, S0);
+      std::vector<double> pv(S0[j]);
+      for (double &x : pv) x += 1.0;
+      L[j].set(pv);
+      run_item();
+      snap_t S2 = getall(L);
+      // only what the item really wrote counts (entries it left alone keep the perturbation of their own location)
+      bool dep = false;
+      for (size_t w : W) for (size_t e = 0; e < S1[w].size(); e++) if (S1[w][e] != S0[w][e] && S2[w][e] != S1[w][e]) dep = true;
+      if (dep) R.push_back(j);
+    }
+    o << "FP " << label << (repeatable ? "" : " NOTREPEATABLE") << " W=";
+    for (size_t k = 0; k < W.size(); k++) o << (k ? "," : "") << L[W[k]].name;
+    o << " R=";
+    for (size_t k = 0; k < R.size(); k++) o << (k ? "," : "") << L[R[k]].name;
+    o << "\n";
+    setall(L, S0);
+  }
+
+  void footprints()
+  {
+    colvarmodule *cv = proxy->colvars;
+    std::vector<colvar *> &vars = *(cv->variables());
+    // the engine's new positions
+    for (size_t i = 0; i < proxy->atoms_ids.size(); i++) proxy->atoms_positions[i] = eng.pos[proxy->atoms_ids[i]];
+    std::vector<c12_loc> L = locations();
+    auto vindex = [&](colvar *c) { for (size_t v = 0; v < vars.size(); v++) if (vars[v] == c) return (int) v; return -1; };
+    // phase 1: the items of the component loop, as built by calc_colvars at the last step
+    snap_t S0 = getall(L);
+    int const n = cv->variables_active_smp()->size();
+    for (int i = 0; i < n; i++) {
+      probe("comp " + std::to_string(vindex((*(cv->variables_active_smp()))[i])) + ":" + std::to_string((*(cv->variables_active_smp_items()))[i]),
+            L, S0, [cv, i]() { cv->calc_component_smp(i); });
+    }
+    setall(L, S0);
+    for (int i = 0; i < n; i++) cv->calc_component_smp(i);
+    // phase 2: collection of every active variable
+    snap_t S1 = getall(L);
+    for (colvar *c : *(cv->variables_active())) probe("collect " + std::to_string(vindex(c)), L, S1, [c]() { c->collect_cvc_data(); });
+    setall(L, S1);
+    for (colvar *c : *(cv->variables_active())) c->collect_cvc_data();
+    for (colvar *c : vars) c->reset_bias_force();
+    cv->total_bias_energy = 0.0;
+    // phase 3: the items of the bias loop
+    snap_t S2 = getall(L);
+    for (colvarbias *b : *(cv->biases_active())) {
+      int bi = -1;
+      for (size_t k = 0; k < cv->biases.size(); k++) if (cv->biases[k] == b) bi = k;
+      probe("bias " + std::to_string(bi), L, S2, [b]() { b->update(); });
+    }
+    if (cv->use_scripted_forces && !cv->scripting_after_biases) probe("script", L, S2, [cv]() { cv->calc_scripted_forces(); });
+    *out << "FPEND\n";
+  }
 
   bool exec_extra(std::string const &cmd, std::vector<std::string> const &a, std::istream &) override
   {
@@ -42,6 +180,16 @@ struct c12_session : public vsim_session {
             << vs_hex(c->cvcs[i]->value()) << "\n";
         }
       }
+      return true;
+    }
+    if (cmd == "footprints") { footprints(); return true; }
+    if (cmd == "setupoutput") {   // what an engine does after the configuration was read (replica files of metadynamics are opened there)
+      cvm::clear_error();
+      int err = proxy->colvars->setup_output();
+      // the module forwards to the biases only when the prefix changed; the simulator sets it before the module exists
+      for (colvarbias *b : proxy->colvars->biases) err |= b->setup_output();
+      o << "SETUPOUTPUT err=" << vs_errclass(err | cvm::get_error()) << "\n";
+      cvm::clear_error();
       return true;
     }
     if (cmd == "errbits") {
